@@ -11,6 +11,10 @@ Init == l = 1 /\ viol = {} /\ hist = 0 /\ qs = {} /\ reps = {} /\ aggs = <<>> /\
 \* observed stake of the submitting reporter: bonded delegations of selectors whose lock has passed
 Stake(e) == NSumSeq([i \in DOMAIN e.seltok |-> IF e.seltok[i].bonded /\ e.seltok[i].locked \preceq e.t THEN e.seltok[i].tok ELSE Zero])
 ReporterOk(e) == e.isrep /\ ~e.jailed /\ e.minstake \preceq Stake(e)
+\* for the SUFFICIENT side only: the stake as the code counts it at the least (finding F-27: for a selector with more
+\* delegations than the validator cap, bonded validators outside the staking module's by-power walk are left out)
+StakeLow(e) == NSumSeq([i \in DOMAIN e.seltok |-> IF e.seltok[i].bonded /\ e.seltok[i].locked \preceq e.t /\ ~(e.seltok[i].cnt > e.seltok[i].maxvals /\ ~e.seltok[i].intop) THEN e.seltok[i].tok ELSE Zero])
+ReporterSurelyOk(e) == e.isrep /\ ~e.jailed /\ e.minstake \preceq StakeLow(e) /\ Pow10(6) \preceq StakeLow(e)
 
 AggsOf(a, q) == IF q \in DOMAIN a THEN Range(a[q]) ELSE {}
 AllQ(a, b) == (DOMAIN a) \cup (DOMAIN b)
@@ -22,7 +26,7 @@ Key(r) == <<r.q, r.id>>
 HasPower(e) == Pow10(6) \preceq Stake(e)
 CheckSubmit(e, postqs, postreps) ==
   LET g == Admit(qs, e.q, e.kind, e.h, ReporterOk(e))
-      gs == Admit(qs, e.q, e.kind, e.h, ReporterOk(e) /\ HasPower(e)) IN
+      gs == Admit(qs, e.q, e.kind, e.h, ReporterSurelyOk(e)) IN
   (IF e.ok /\ ~g THEN {"ReportAcceptedOnlyIntoOpenRound"} ELSE {})
   \cup (IF ~e.ok /\ gs /\ e.vclass = "valid" THEN {"ReportIntoOpenRoundAccepted"} ELSE {})
   \cup (IF e.ok THEN
